@@ -223,7 +223,7 @@ func init() {
 		crash("Publish", 5, B{"segs": 2, "recs": 1, "vers": 1, "profs": 1, "publishes": 1, "batch": 2, "taps": 40}, B{"segs": 2, "recs": 2, "vers": 2, "profs": 1, "publishes": 2, "batch": 2, "taps": 64}, "crashed", "completed", "inflight-prefix-survived"),
 		crash("Delete", 5, B{"segs": 2, "recs": 2, "vers": 1, "profs": 1, "taps": 40}, B{"segs": 2, "recs": 2, "vers": 2, "profs": 1, "taps": 64}, "crashed", "applied", "not-applied"),
 		crash("Migrate", 5, B{"segs": 2, "recs": 1, "vers": 2, "profs": 1, "taps": 40}, B{"segs": 2, "recs": 2, "vers": 2, "profs": 1, "taps": 64}, "crashed"),
-		crash("Recover", 5, B{"segs": 2, "recs": 2, "vers": 1, "profs": 1, "taps": 24}, B{"segs": 2, "recs": 2, "vers": 2, "profs": 1, "taps": 32}, "crashed"),
+		crash("Recover", 5, B{"segs": 2, "recs": 1, "vers": 1, "profs": 1, "taps": 24}, B{"segs": 2, "recs": 2, "vers": 2, "profs": 1, "taps": 32}, "crashed"),
 	}, Assumptions: []string{"crash model of the property: file-system calls take effect in program order; the process may die right before any mutating call of klevdb (os.OpenFile, Write, Sync, Rename, Remove, Chtimes, MkdirAll, io.Copy); an append may be torn at any byte except inside the first 8 bytes of a file; nothing else is lost (loss of unsynced data is C06)",
 		"keys pairwise different and times strictly increasing in the crash workloads (coincidences are the subject of C09/C10)"}})
 	addProp(&Prop{ID: "C06", DesignRef: "DESIGN.md §4 C06", Runs: []HarnessRun{
